@@ -736,13 +736,35 @@ pub(crate) mod verif_hooks {
     }
 
     /// A tablet whose only replica is the node `replica_id`; the node is known (resolved) iff `resolved`.
-    pub(crate) fn make_tablet_on(first: i64, last: i64, replica_id: u128, resolved: bool) -> Tablet {
+    pub(crate) fn make_tablet_on(
+        first: i64,
+        last: i64,
+        replica_id: u128,
+        resolved: bool,
+    ) -> Tablet {
+        make_tablet_on_many(first, last, &[replica_id], resolved)
+    }
+
+    /// A tablet with one replica per given node id, all in datacenter "dc" (all known or all unknown).
+    pub(crate) fn make_tablet_on_many(
+        first: i64,
+        last: i64,
+        replica_ids: &[u128],
+        resolved: bool,
+    ) -> Tablet {
         let raw = RawTabletReplicas {
-            replicas: vec![(Uuid::from_u128(replica_id), 0)],
+            replicas: replica_ids
+                .iter()
+                .map(|id| (Uuid::from_u128(*id), 0))
+                .collect(),
         };
         let known = |id: Uuid| {
             resolved.then(|| {
-                std::sync::Arc::new(crate::cluster::node::Node::verif_new(id, Some("dc".to_owned()), None))
+                std::sync::Arc::new(crate::cluster::node::Node::verif_new(
+                    id,
+                    Some("dc".to_owned()),
+                    None,
+                ))
             })
         };
         match TabletReplicas::from_raw_replicas(&raw, known) {
@@ -761,8 +783,32 @@ pub(crate) mod verif_hooks {
         }
     }
 
+    /// `(host id, address of the Node object)` of every replica of tablet `i`: the full list, and each per-datacenter list.
+    #[allow(clippy::type_complexity)]
+    pub(crate) fn tablet_replica_lists(
+        t: &TableTablets,
+        i: usize,
+    ) -> (Vec<(u128, usize)>, Vec<(String, Vec<(u128, usize)>)>) {
+        let one = |(n, _): &(std::sync::Arc<crate::cluster::node::Node>, u32)| {
+            (n.host_id.as_u128(), std::sync::Arc::as_ptr(n) as usize)
+        };
+        let r = &t.tablet_list[i].replicas;
+        let mut per_dc: Vec<_> = r
+            .per_dc
+            .iter()
+            .map(|(dc, l)| (dc.clone(), l.iter().map(one).collect()))
+            .collect();
+        per_dc.sort();
+        (r.all.iter().map(one).collect(), per_dc)
+    }
+
     /// `TableTablets::perform_maintenance` with the given removed node ids, currently known node ids and (possibly empty) re-created ids.
-    pub(crate) fn table_maintain(t: &mut TableTablets, removed: &[u128], known: &[u128], recreated: &[u128]) {
+    pub(crate) fn table_maintain(
+        t: &mut TableTablets,
+        removed: &[u128],
+        known: &[u128],
+        recreated: &[u128],
+    ) {
         use std::collections::{HashMap, HashSet};
         let node = |id: &u128| {
             (
